@@ -303,3 +303,99 @@ Theorem C01_logicsim_loop_source_nonvacuous : exists so,
   run_loop 1 loop_prop_cpu (so_locs so) (so_nlines so) 0%Z 0%Z None (map KV.Proofs.LogicSimDriversProofs.row_of (so_ops so)) (map KV.Proofs.LogicSimDriversProofs.emb2 m)
   = (map KV.Proofs.LogicSimDriversProofs.emb2 (c_prop false sem2 so m), []) /\ c_prop false sem2 so m <> m.
 Proof. exact KV.Proofs.LogicSimDriversExample.source_loop_example. Qed.
+
+(** ---- the FULL source tie of the logic simulator's drivers (closes C01_logicsim_drivers_source_is_model_partial): the pinned per-lane
+    meanings of LogicSim.s_to_c / c_to_s / s_ppo_to_ppi / cycle (Model/LogicSimDrvPrelude.v) ARE s_to_c / c_to_s / ppo_to_ppi / cycles of the
+    compared hand model, as theorems (Proofs/LogicSimDriversFull.v).  [rel2 so L m s0 s1]: the source-level lane state L (c: one plane per
+    location; s[0], s[1]: s_len rows of three planes) shows the model state -- c = the memory m plane by plane, s0 / s1 = plane 0 of the
+    s[0] / s[1] rows.  numpy's negative-index wrap-around cannot occur: all positions come from arange (zseq), all c_locs indices are
+    offset + position, and every location passed the `c_locs[..] >= 0` filter of SimOps.__init__ -- proved (through pyidx_nat), not assumed.
+    The only shape hypotheses are n_io <= s_len (proved for every build() result: s_nodes = io_nodes + state elements) and the array
+    shape of s that LogicSim.__init__ allocates. *)
+From KV Require Proofs.LogicSimDriversFull Proofs.LogicSimDriversFullExample.
+Module LSF := KV.Proofs.LogicSimDriversFull.
+
+Theorem C01_logicsim_s_to_c_source_is_model : forall so n_io L m, (n_io <= so_slen so)%nat ->
+  ls_c L = map KV.Proofs.LogicSimDriversProofs.emb2 m -> LSF.rows3 (ls_s0 L) -> List.length (ls_s0 L) = so_slen so ->
+  s_to_c_src 1 (so_locs so) (Z.of_nat (ppi_off so)) n_io (so_slen so) L
+  = mk_lsim (map KV.Proofs.LogicSimDriversProofs.emb2 (s_to_c so (LSF.p0 (ls_s0 L)) m)) (ls_s0 L) (ls_s1 L).
+Proof. exact LSF.s_to_c_src_is_model. Qed.
+
+Theorem C01_logicsim_c_to_s_source_is_model : forall so m n_io L, (n_io <= so_slen so)%nat ->
+  ls_c L = map KV.Proofs.LogicSimDriversProofs.emb2 m -> LSF.rows3 (ls_s1 L) -> List.length (ls_s1 L) = so_slen so ->
+  exists S1', c_to_s_src 1 (so_locs so) (Z.of_nat (ppo_off so)) n_io (so_slen so) L = mk_lsim (ls_c L) (ls_s0 L) S1' /\
+    LSF.p0 S1' = c_to_s false so m (LSF.p0 (ls_s1 L)) /\ LSF.rows3 S1' /\ List.length S1' = so_slen so.
+Proof. exact LSF.c_to_s_src_is_model. Qed.
+
+Theorem C01_logicsim_s_ppo_to_ppi_source_is_model : forall slen n_io L, (n_io <= slen)%nat ->
+  List.length (ls_s0 L) = slen -> List.length (ls_s1 L) = slen -> LSF.rows3 (ls_s0 L) -> LSF.rows3 (ls_s1 L) ->
+  exists S0', s_ppo_to_ppi_src 1 n_io slen L = mk_lsim (ls_c L) S0' (ls_s1 L) /\
+    LSF.p0 S0' = ppo_to_ppi n_io (LSF.p0 (ls_s0 L)) (LSF.p0 (ls_s1 L)) /\ LSF.rows3 S0' /\ List.length S0' = slen.
+Proof. exact LSF.s_ppo_to_ppi_src_is_model. Qed.
+
+(* for EVERY build() result (all four option combinations): one simulation round s_to_c(); c_prop(); c_to_s() of the source-level model
+   (the pinned methods around the TRANSLATED _prop_cpu loop, [prop_of] = the pinned c_prop skeleton for m == 2) from any related state is the
+   model's round, and k calls of the body of LogicSim.cycle are the model's [cycles k] -- memory, assignments and results *)
+Theorem C01_logicsim_drivers_source_is_model : forall c caps cmin reuse strip so,
+  wf_netlist c -> comb_acyclic c -> (0 < cmin)%N -> KV.Proofs.EndToEnd.gates_known c -> (strip = true -> KV.Proofs.ReuseStrip.forks_ok c) ->
+  build c caps cmin reuse strip = Some so ->
+  let n_io := List.length (c_io c) in
+  forall L m s0 s1, LSF.rel2 so L m s0 s1 ->
+    (let m' := c_prop false sem2 so (s_to_c so s0 m) in LSF.rel2 so (LSF.round_of so n_io L) m' s0 (c_to_s false so m' s1)) /\
+    forall k, let r := cycles k false sem2 so n_io m s0 s1 in
+      LSF.rel2 so (cycle_src k (LSF.stc_of so n_io) (LSF.cts_of so n_io) (LSF.p2p_of so n_io) (LSF.prop_of so) L) (fst (fst r)) (snd (fst r)) (snd r).
+Proof.
+  intros c caps cmin reuse strip so WF AC CM GK FK B n_io L m s0 s1 HR.
+  exact (conj (LSF.build_round_src_is_model c caps cmin reuse strip so WF AC CM GK FK B L m s0 s1 HR)
+              (fun k => LSF.build_cycle_src_is_model c caps cmin reuse strip so WF AC CM GK FK B k L m s0 s1 HR)).
+Qed.
+
+(* ... hence (composed with C01_logicsim_model_correct / C01_cycles_model_correct): from the state LogicSim.__init__ leaves (c cleared) the
+   source-level round captures, at every s_node position with a data line, the value of that line in ANY solution of the netlist's
+   gate-by-gate equations, and k source-level cycles compute the k-fold synchronous semantics *)
+Theorem C01_logicsim_drivers_source_correct : forall c caps cmin reuse strip so,
+  wf_netlist c -> comb_acyclic c -> (0 < cmin)%N -> KV.Proofs.EndToEnd.gates_known c -> (strip = true -> KV.Proofs.ReuseStrip.forks_ok c) ->
+  build c caps cmin reuse strip = Some so ->
+  let n_io := List.length (c_io c) in
+  forall L, LSF.lsim_init so L ->
+  (forall v, solution (KV.Proofs.LogicSimGlue.semN sem2) false c (fun p => nth p (LSF.p0 (ls_s0 L)) false) v ->
+     let L' := LSF.round_of so n_io L in
+     LSF.p0 (ls_s1 L') = simulate false sem2 so (LSF.p0 (ls_s0 L)) (LSF.p0 (ls_s1 L)) /\ ls_s0 L' = ls_s0 L /\
+     forall p, (p < List.length (s_nodes c))%nat ->
+       nth p (LSF.p0 (ls_s1 L')) false = match snode_in c p with Some l0 => v l0 | None => nth p (LSF.p0 (ls_s1 L)) false end) /\
+  (forall k,
+     let L' := cycle_src k (LSF.stc_of so n_io) (LSF.cts_of so n_io) (LSF.p2p_of so n_io) (LSF.prop_of so) L in
+     let r := cycles k false sem2 so n_io (repeat false (N.to_nat (so_len so))) (LSF.p0 (ls_s0 L)) (LSF.p0 (ls_s1 L)) in
+     (ls_c L' = map KV.Proofs.LogicSimDriversProofs.emb2 (fst (fst r)) /\ LSF.p0 (ls_s0 L') = snd (fst r) /\ LSF.p0 (ls_s1 L') = snd r) /\
+     (LSF.p0 (ls_s0 L'), LSF.p0 (ls_s1 L')) = line_cycles (KV.Proofs.LogicSimGlue.semN sem2) false c k (LSF.p0 (ls_s0 L), LSF.p0 (ls_s1 L)) /\
+     iter_sem (KV.Proofs.LogicSimGlue.semN sem2) false c k (LSF.p0 (ls_s0 L)) (LSF.p0 (ls_s1 L)) (LSF.p0 (ls_s0 L')) (LSF.p0 (ls_s1 L'))).
+Proof.
+  intros c caps cmin reuse strip so WF AC CM GK FK B n_io L HI.
+  exact (conj (fun v Hv => LSF.build_round_solution c caps cmin reuse strip so WF AC CM GK FK B L v HI Hv)
+              (fun k => LSF.build_cycle_solution c caps cmin reuse strip so WF AC CM GK FK B k L HI)).
+Qed.
+
+(* the entry point of the 2-valued correspondence check is what the source-level cycle leaves in s[0] / s[1] (plane 0), and that is the
+   k-fold Boolean next-state function (LUT semantics) *)
+Theorem C01_logicsim_drivers_source_is_sim_case2 : forall c reuse strip so k L,
+  wf_netlist c -> comb_acyclic c -> KV.Proofs.EndToEnd.gates_known c -> (strip = true -> KV.Proofs.ReuseStrip.forks_ok c) ->
+  build c (repeat 1%N (List.length (c_lines c) + 3)) 1%N reuse strip = Some so -> LSF.lsim_init so L ->
+  let n_io := List.length (c_io c) in
+  let L' := cycle_src k (LSF.stc_of so n_io) (LSF.cts_of so n_io) (LSF.p2p_of so n_io) (LSF.prop_of so) L in
+  sim_case2 c reuse strip k (LSF.p0 (ls_s0 L)) (LSF.p0 (ls_s1 L)) = Some (LSF.p0 (ls_s0 L'), LSF.p0 (ls_s1 L')) /\
+  (LSF.p0 (ls_s0 L'), LSF.p0 (ls_s1 L')) = line_cycles sem_lut false c k (LSF.p0 (ls_s0 L), LSF.p0 (ls_s1 L)) /\
+  iter_sem sem_lut false c k (LSF.p0 (ls_s0 L)) (LSF.p0 (ls_s1 L)) (LSF.p0 (ls_s0 L')) (LSF.p0 (ls_s1 L')).
+Proof. exact LSF.sim_case2_is_source. Qed.
+
+(* non-vacuity on the exR instance (c_reuse and strip_forks on): a concrete initial state, two source-level cycles EVALUATED *)
+Theorem C01_logicsim_drivers_source_nonvacuous : exists so,
+  build KV.Proofs.ReuseProofs.ReuseExample.exR (repeat 1%N (List.length (c_lines KV.Proofs.ReuseProofs.ReuseExample.exR) + 3)) 1%N true true = Some so /\
+  LSF.lsim_init so KV.Proofs.LogicSimDriversFullExample.exL /\
+  let exL := KV.Proofs.LogicSimDriversFullExample.exL in
+  let exR := KV.Proofs.ReuseProofs.ReuseExample.exR in
+  let n_io := List.length (c_io exR) in
+  let L' := cycle_src 2 (LSF.stc_of so n_io) (LSF.cts_of so n_io) (LSF.p2p_of so n_io) (LSF.prop_of so) exL in
+  LSF.p0 (ls_s0 exL) = [true; true; false] /\ LSF.p0 (ls_s0 L') = [true; true; true] /\ LSF.p0 (ls_s1 L') = [false; true; true] /\
+  sim_case2 exR true true 2 (LSF.p0 (ls_s0 exL)) (LSF.p0 (ls_s1 exL)) = Some (LSF.p0 (ls_s0 L'), LSF.p0 (ls_s1 L')) /\
+  iter_sem sem_lut false exR 2 (LSF.p0 (ls_s0 exL)) (LSF.p0 (ls_s1 exL)) (LSF.p0 (ls_s0 L')) (LSF.p0 (ls_s1 L')).
+Proof. exact KV.Proofs.LogicSimDriversFullExample.drivers_full_example. Qed.
